@@ -781,7 +781,36 @@ def _align_case(case):
     return None
 
 
+def _pair_case(case):
+    """Two different repartitions of ONE frame evaluated in ONE graph (dask.compute(a, b), concat([a, b])): the
+    intermediate keys of the two (splits, boundary slices) must not collide."""
+    import dask
+    import dask_expr as dx
+
+    df, pdf = _np_frame(case)
+    specs = [case["spec1"], case["spec2"]]
+    what = f"two repartitions {specs} of one frame with partitions {case.get('cuts')} in one graph"
+    r = e2e.run_or_err(lambda: [df.repartition(**sp) for sp in specs])
+    if r[0] == "err":
+        return f"[raised:{r[1]}] {what}: raised {r[1]}: {r[2]}"
+    a, b = r[1]
+    for order, colls in (("a,b", (a, b)), ("b,a", (b, a))):
+        got = e2e.run_or_err(lambda: dask.compute(*colls))
+        if got[0] == "err":
+            return f"[raised:{got[1]}] {what} (compute({order})): raised {got[1]}: {got[2]}"
+        for spec, g in zip(specs if order == "a,b" else specs[::-1], got[1]):
+            if len(g) != len(pdf) or g["pay"].tolist() != pdf["pay"].tolist():
+                return f"[rows] {what} (compute({order})): repartition({spec}) returned rows {g['pay'].tolist()} instead of {pdf['pay'].tolist()}"
+    got = e2e.run_or_err(lambda: dx.concat([a, b]).compute())
+    if got[0] == "err":
+        return f"[raised:{got[1]}] {what} (concat): raised {got[1]}: {got[2]}"
+    if got[1]["pay"].tolist() != pdf["pay"].tolist() * 2:
+        return f"[rows] {what} (concat): rows {got[1]['pay'].tolist()}"
+    return None
+
+
 _RUNNERS = {
+    "pair": _pair_case,
     "divisions": _divisions_case,
     "npartitions": _npartitions_case,
     "size": _size_case,
@@ -887,6 +916,15 @@ def _cases(ctx, broken):
                                  "size": size})
     rng.shuffle(sz_cases)
     cases += sz_cases[: (20 if quick else len(sz_cases))]
+    # --- two repartitions of one frame in one graph
+    specs = [{"partition_size": 40}, {"partition_size": 100}, {"partition_size": 64}, {"npartitions": 5}, {"npartitions": 7}, {"npartitions": 3},
+             {"npartitions": 1}]
+    pairs = [{"kind": "pair", "src": "cuts", "n": 8, "cuts": cuts, "known": known, "dup": 1, "spec1": s1, "spec2": s2}
+             for cuts in ([0, 8], [0, 4, 8], [0, 1, 8]) for known in (True, False) for s1 in specs for s2 in specs if s1 != s2]
+    rng.shuffle(pairs)
+    must_pairs = [c for c in pairs if c["cuts"] == [0, 4, 8] and c["known"] and {tuple(c["spec1"].items()), tuple(c["spec2"].items())} in
+                  ({(("partition_size", 40),), (("partition_size", 100),)}, {(("npartitions", 5),), (("npartitions", 7),)})]
+    cases += must_pairs + pairs[: (16 if quick else len(pairs))]
     # --- freq
     fq = [{"kind": "freq", "n": n, "step": step, "k": k, "freq": freq, "dup": dup}
           for n in (6, 10) for step in ("12h", "1D") for k in (1, 2, 3) for freq in ("1D", "2D", "36h", "7D")
